@@ -110,6 +110,15 @@ class Check:
             tb = traceback.format_exc()
             self.rule_errors.append({'rule_fn': getattr(fn, '__name__', str(fn)), 'error': repr(e), 'trace': tb[-1500:]})
             print('RULE-ERROR %s %s: %r' % (self.pid, getattr(fn, '__name__', fn), e), file=sys.stderr)
+            # fail closed: no rule raises on the tree the rules were written for (tools/validate.py refuses evidence with a
+            # rule error), so a rule that raises met a construct it cannot read - it has no verdict, and says so
+            try:
+                RX = self.rule('%s.RX' % self.pid, 'RULE-READABLE: every rule of this property could read the constructs it anchors on')
+                where = [ln.strip() for ln in tb.splitlines() if ln.strip().startswith('File') and '/rules/' in ln]
+                site = where[-1].split('/rules/')[-1].split(',')[0].replace('"', '') if where else '?'
+                self.bad(RX, 'rule-raised:%s:%s' % (site, type(e).__name__), 'a rule of %s (%s) raised %r on this tree: the construct it examines has a shape it cannot interpret, so the clause is undecided here' % (self.pid, site, e))
+            except Exception:
+                pass
 
     def adopt(self, sub_rule, R):
         """Move the obligations recorded under another property's rule id to this property's rule R (shared rules)."""
